@@ -223,9 +223,28 @@ def build_initial(repos, initial):
                 f.write("partial")
 
 
+FAKE_TAR = r"""#!/bin/bash
+# stand-in for tar that dies *silently* part-way: VERIF_FAKE_TAR = kill:K | exit:K  (K = number of files it still extracts)
+plan="$VERIF_FAKE_TAR"; mode=${plan%%:*}; k=${plan##*:}
+real=@REAL@
+comp=; file=; args=("$@")
+for ((i=0;i<${#args[@]};i++)); do
+  case "${args[i]}" in --gzip|--bzip2|--xz) comp=${args[i]};; -f) file=${args[i+1]};; esac
+done
+mapfile -t members < <("$real" --list $comp -f "$file" 2>/dev/null | grep -v '/$' | head -n "$k")
+if [ ${#members[@]} -gt 0 ]; then "$real" "$@" "${members[@]}" >/dev/null 2>&1; fi
+if [ "$mode" = kill ]; then kill -KILL $$; fi
+exit 2
+"""
+
+
 def gen_scenario(rng):
-    return {"initial": rng.choice(INITIALS), "tarball": rng.choice(TARBALLS[:8] * 2 + TARBALLS[8:]), "force": rng.random() < 0.6,
-            "prior_etag": rng.random() < 0.3, "exit": rng.choice(["exit", "kill"])}
+    sc = {"initial": rng.choice(INITIALS), "tarball": rng.choice(TARBALLS[:8] * 2 + TARBALLS[8:]), "force": rng.random() < 0.6,
+          "prior_etag": rng.random() < 0.3, "exit": rng.choice(["exit", "kill"])}
+    if sc["tarball"] in TREE_OF_TARBALL and rng.random() < 0.3:
+        n = len(TREES[TREE_OF_TARBALL[sc["tarball"]]])
+        sc["tar"] = rng.choice(["kill", "exit"]) + ":%d" % rng.choice([0, 1, n // 2, max(n - 1, 0), n])
+    return sc
 
 
 def corpus():
@@ -239,6 +258,9 @@ def corpus():
         S("v1", "short.tar.gz"), S("v1", "reset.tar.gz"), S("v1", "missing.tar.gz"), S("v1", "refused"), S("none", "corrupt.tar.gz"), S("none+update-partial", "missing.tar.gz"),
         S("v1", "v3-etag.tar.gz", force=False, prior=True), S("v1", "v3-modified.tar.gz", force=False, prior=True),
         S("v1", "v3-nomatch-etag.tar.gz", force=False, prior=True), S("v1", "empty.tar.gz"),
+        # the unpacker itself dies without a word (killed by a signal, or a bare non-zero exit) after part of the archive
+        dict(S("v1", "v3-etag.tar.gz"), tar="kill:20"), dict(S("v1", "v2.tar.bz2"), tar="exit:2"), dict(S("v1", "v3.tar.xz"), tar="kill:0"),
+        dict(S("v1+both", "v2.tar.gz"), tar="kill:5"), dict(S("none", "v1.tar.gz"), tar="exit:1"), dict(S("gap", "v3-modified.tar.gz"), tar="kill:44"),
     ]
 
 
@@ -265,10 +287,20 @@ def run(ctx):
             return f"tar+http://127.0.0.1:{dead_port}/v1.tar.gz"
         return f"tar+http://127.0.0.1:{port}/{tarball}"
 
-    def do_sync(repos, tarball, force, exit_mode):
+    fakebin = os.path.join(root, "fakebin")
+    os.makedirs(fakebin)
+    with open(os.path.join(fakebin, "tar"), "w") as f:
+        f.write(FAKE_TAR.replace("@REAL@", shutil.which("tar") or "/usr/bin/tar"))
+    os.chmod(os.path.join(fakebin, "tar"), 0o755)
+
+    def do_sync(repos, tarball, force, exit_mode, tar_plan=None):
         """one sync() with a fresh syncer; returns 'ok' / 'unchanged-or-ok' result or the exception class name"""
         syncer = tar_syncer(os.path.join(repos, REPO), uri(tarball))
+        saved_path = os.environ.get("PATH", "")
         try:
+            if tar_plan:
+                os.environ["PATH"] = fakebin + os.pathsep + saved_path
+                os.environ["VERIF_FAKE_TAR"] = tar_plan
             with contextlib.redirect_stdout(io.StringIO()):
                 ret = syncer.sync(force=force)
             res = "ok" if ret else "false"
@@ -277,6 +309,8 @@ def run(ctx):
         except Exception as e:
             res = "exc:" + type(e).__name__
         finally:
+            os.environ["PATH"] = saved_path
+            os.environ.pop("VERIF_FAKE_TAR", None)
             with contextlib.suppress(Exception):
                 syncer.tarball.close()
         if exit_mode == "exit":           # what the atexit handlers do at process exit
@@ -333,7 +367,7 @@ def run(ctx):
             points.append([ev, read_tree(base), d])
 
         with obs.watch(repos, probe):
-            result = do_sync(repos, sc["tarball"], sc["force"], "kill")
+            result = do_sync(repos, sc["tarball"], sc["force"], "kill", sc.get("tar"))
         if any(e[0] == "observer-error" for e in obs.events):
             ctx.mismatch(sc, "observer failed: %r" % [e for e in obs.events if e[0] == "observer-error"][:2])
             return
@@ -348,6 +382,8 @@ def run(ctx):
         ctx.count("crash_points", len(points))
         ctx.count("initial_" + sc["initial"])
         ctx.count("tarball_" + sc["tarball"])
+        if sc.get("tar"):
+            ctx.count("silent_tar_death_" + sc["tar"].split(":")[0])
         ctx.count("result_" + result)
 
         # ---- what should have happened (independent of the model)
@@ -356,7 +392,7 @@ def run(ctx):
         restored = tree_of("v1") if sc["initial"].startswith("gap") else None
         unchanged = bool(not sc["force"] and sc["prior_etag"] and old_tree is not None and ent and (ent[1] or ent[2])
                          and sc["tarball"] in ("v3-etag.tar.gz", "v3-modified.tar.gz"))
-        success = tname is not None and not unchanged
+        success = tname is not None and not unchanged and not sc.get("tar")
         effective_old = restored if restored is not None else old_tree
         if success:
             new_tree = tree_of(tname)
@@ -373,6 +409,17 @@ def run(ctx):
                 ctx.note(f"a failed transfer surfaces as {result} instead of SyncError (file system effects are checked regardless)")
             if (final_tree or {}) != (effective_old or {}):
                 ctx.violation(sc, f"a failed or unchanged sync altered the repository tree: {sorted(final_tree or {})[:6]} vs old {sorted(effective_old or {})[:6]}")
+        if sc.get("tar") and tname and not unchanged and not sc["prior_etag"]:     # (with prior_etag the old tree itself carries that ETag)
+            # the archive was fine, only the unpacker died: a plain re-sync (not forced) must now install the complete tree,
+            # it must not be told "unchanged" on the strength of an ETag recorded by the failed run
+            counter[0] += 1
+            work = os.path.join(root, "t%d" % counter[0])
+            shutil.copytree(repos, work, symlinks=True)
+            r2 = do_sync(work, sc["tarball"], False, "kill")
+            t2 = read_tree(os.path.join(work, REPO))
+            if r2 != "ok" or t2 != tree_of(tname):
+                ctx.violation(sc, f"re-sync after the unpacker died silently: result {r2}, tree {sorted(t2 or {})[:6]} instead of the complete new tree")
+            shutil.rmtree(work, ignore_errors=True)
         # ---- every crash point: complete old or complete new tree
         changed = False
         for ev, tree, d in points:
@@ -443,7 +490,7 @@ def run(ctx):
             else:
                 vis.append([ev[0]] + list(ev[1:]))
         if not success:
-            download = "unchanged" if unchanged else ("broken" if result.startswith("exc:") and events else
+            download = "unchanged" if unchanged else ("broken" if result.startswith("exc:") and events and not sc.get("tar") else
                                                       "unreachable" if sc["tarball"] in ("missing.tar.gz", "refused") else "ok")
         else:
             download = "ok"
@@ -456,7 +503,7 @@ def run(ctx):
         shutil.rmtree(os.path.dirname(repos), ignore_errors=True)
 
     try:
-        scenarios = corpus() + [gen_scenario(rng) for _ in range(ctx.n(6, 350))]
+        scenarios = corpus() + [gen_scenario(rng) for _ in range(ctx.n(3, 250))]
         for sc in scenarios:
             run_scenario(sc)
     finally:
